@@ -49,10 +49,6 @@ Fixpoint pv_eqb (a b: pv) {struct a} : bool :=
          | _, _ => false end) x y
   | _, _ => false end.
 
-(* math.isnan(v) is defined (bool, int, float); anything else raises TypeError *)
-Definition is_real (v: pv) : bool :=
-  match v with PBool _ | PInt _ | PFlt _ | PFltX _ | PNaN => true | _ => false end.
-
 (* Python == : numbers compare across bool/int/float, NaN equals nothing *)
 Definition num (v: pv) : option Z :=
   match v with PBool b => Some (if b then 1 else 0) | PInt z | PFlt z => Some z | _ => None end.
@@ -177,19 +173,18 @@ Definition key_kw (c: sctx) (p: fplan) : string :=
 Definition key_lit (c: sctx) (p: fplan) : string :=
   match p.(p_alias) with Some a => if c.(s_ba) then a else p.(p_name) | None => p.(p_name) end.
 
-(* _pack_method_set_value: `if value != <default>:` / `if not isnan(value):` on the RAW value.
-   None = the test raises TypeError (math.isnan of a non-number) *)
-Definition guard (od: bool) (p: fplan) (raw: pv) : option bool :=
+(* _pack_method_set_value: `if value != <default>:` on the RAW value; for a NaN default
+   `if not (isinstance(value, float) and isnan(value)):` -- only a float NaN matches, nothing raises *)
+Definition guard (od: bool) (p: fplan) (raw: pv) : bool :=
   if od then
     match default_value p with
-    | None => Some true
-    | Some PNaN => if is_real raw then Some (negb (is_nan raw)) else None
-    | Some d => Some (negb (py_eq raw d)) end
-  else Some true.
+    | None => true
+    | Some PNaN => negb (is_nan raw)
+    | Some d => negb (py_eq raw d) end
+  else true.
 
-Definition out := option (list (string * pv)).      (* None: TypeError *)
-Definition guarded (g: option bool) (l: list (string * pv)) : out :=
-  match g with Some true => Some l | Some false => Some [] | None => None end.
+Definition out := option (list (string * pv)).      (* None: the call raises (no branch of the current body does) *)
+Definition guarded (g: bool) (l: list (string * pv)) : out := Some (if g then l else []).
 
 Definition emit_kw (c: sctx) (r: row) : out :=
   let p := fst r in let raw := fst (snd r) in
@@ -291,15 +286,8 @@ Definition project (e: eff) (fs: list fplan) (vs: list fval) (plain: list (strin
 (* ------------------------------------------------------------------ *)
 (* side conditions                                                      *)
 (* a key of the plain output is None only for a nullable field holding None *)
-Definition none_ok (r: row) : bool :=
+Definition row_ok (r: row) : bool :=
   (nullable (fst r) && is_none (fst (snd r))) || negb (is_none (pval (fst r) (snd r))).
-(* negation of the signature of known finding omit-default-nan-isnan (math.isnan of a non-number):
-   a field whose default is NaN holds a bool/int/float *)
-Definition nan_ok (r: row) : bool :=
-  match default_value (fst r) with Some PNaN => is_real (fst (snd r)) | _ => true end.
-Definition row_ok (r: row) : bool := none_ok r && nan_ok r.
-Definition vals_ok_weak (fs: list fplan) (vs: list fval) : bool :=
-  Nat.eqb (List.length fs) (List.length vs) && forallb none_ok (combine fs vs).
 Definition vals_ok (fs: list fplan) (vs: list fval) : bool :=
   Nat.eqb (List.length fs) (List.length vs) && forallb row_ok (combine fs vs).
 
